@@ -20,6 +20,12 @@ uint64_t drv_canbrief_finalize(void *pdu, uint16_t len);
 uint64_t drv_vss_encode(void *msg, unsigned addr_mode, unsigned datatype, uint32_t static_id, char *path, uint16_t path_len,
                         uint64_t scalar_bits, void *arr, uint16_t arr_bytes);
 uint64_t drv_vss_pad(void *msg, uint16_t len);
+/* caller-provided input block {VssPath_t, VssData_t, array descriptor, modes}: filled by drv_vss_mkinput (no library call),
+ * consumed by drv_vss_encode_from, which hands the library pointers INTO the block */
+#define DRV_VSS_INBLOCK_SIZE 64
+void drv_vss_mkinput(void *inblock, unsigned addr_mode, unsigned datatype, uint32_t static_id, char *path, uint16_t path_len, uint64_t scalar_bits, void *arr,
+                     uint16_t arr_bytes);
+uint64_t drv_vss_encode_from(void *msg, void *inblock);
 /* decodes path and value of a well-formed message into caller-provided storage; returns a digest of what was reported */
 uint64_t drv_vss_decode(void *msg, char *path_dst, void *arr_dst);
 uint64_t drv_vss_pathlen(void *msg);
